@@ -157,7 +157,8 @@ def run(chk):
     # ------------------------------------------------------------------ Soes
     Cs = reduction_rules(chk, facts, SOES, "or", "C13.S", "std::ops::BitOr")
     # real XOR terms over a two-variable window: | denotes the OR of the operands (analysis/window.py)
-    from ..window import window_op, op_forms, pick_forms
+    from ..window import window_op, op_forms, pick_forms, to_lut_rules
+    to_lut_rules(chk, "C13.T", facts, Cs, "or", chk.tier)
     for bd, label in pick_forms(op_forms(facts, "std::ops::BitOr", SOES), chk.tier):
         for lens in ((1, 1), (2, 1), (1, 2), (0, 2), (2, 2)):
             window_op(chk, "C13.R", facts, Cs, bd, label, lens, "or", "or", WN=2, sample=(lens == (2, 1)))
@@ -305,7 +306,7 @@ def reduction_rules(chk, facts, adt, op, rule, combine_trait, lens=(0, 1, 2, 3))
             for L in (0, 1, 2):
                 key = "%s n=%d %d terms" % (label, n, L)
                 try:
-                    it = Interp(facts)
+                    it = Interp(facts, max_steps=200000)   # a few thousand steps when the terms stay opaque
                     install_stubs(it, facts, C.elem)
                     st = State()
                     names = ["c%d" % j for j in range(L)]
